@@ -2,7 +2,8 @@
 // <CryptWriter<W> as AsyncWrite>::{poll_write, poll_flush, poll_close}, extracted verbatim
 // on every run (tracing macros dropped) into methods of `CwEnv`, which has the three
 // fields of `CryptWriter` under the same names: `inner` (pinned; here a recording
-// AsyncWrite that, per call, returns Pending or accepts an arbitrary non-empty prefix),
+// AsyncWrite that, per call, returns Pending or accepts a non-empty prefix; the harnesses
+// enumerate EVERY such behaviour for the sizes in the bound),
 // `buf: Vec<u8>` and `cipher` (here a MOCK stream cipher: XSalsa20 itself is cryptography
 // and out of reach; what the clause is about is the buffering around it).  The helper
 // `poll_flush_buf` is NOT extracted: the extracted bodies call the REAL generic function of
@@ -20,7 +21,8 @@
 //     cipher.pos'        ==  cipher.pos + n
 // where n = the accepted count for poll_write -> Ready(Ok(n)) and 0 otherwise (Pending loses
 // nothing, accepts nothing).  Invariant: cipher.pos == |wire| + |pending|.  One step from ANY
-// such state (base position symbolic, pending bytes symbolic) => by induction over any
+// such state (base position symbolic, pending bytes symbolic, backlog length enumerated up to
+// 3) => by induction over any
 // sequence of writes / flushes and any partial-write behaviour of the inner writer, the wire
 // carries exactly enc(k, plaintext[k]) at position k: every accepted byte once, in order,
 // encrypted once with its own keystream position; nothing encrypted twice (x ^ ks ^ ks' would
@@ -52,41 +54,51 @@ impl MockCipher {
     }
 }
 
-/// Recording inner writer.  Call number c answers by `script[c]`: 0 = Pending, k > 0 = accept
-/// the first min(k, len) bytes (a partial write unless k >= len).  The harnesses leave the
-/// script symbolic, i.e. every call independently chooses Pending / any non-empty prefix.
+/// Recording inner writer.  Its behaviour is a pair (cuts, pending_at): with n = number of
+/// bytes accepted so far, a call is answered Pending (once) when n == pending_at, otherwise it
+/// accepts bytes up to the next position p with bit p of `cuts` set (a PARTIAL write), the
+/// position pending_at, or the end of the offered slice, whichever comes first.  Every
+/// sequence of "Pending / accept a non-empty prefix" answers that one call of the functions
+/// under contract can observe for a given amount of data is produced by exactly one canonical
+/// (cuts, pending_at): the harnesses enumerate them all (measured: leaving the behaviour
+/// symbolic costs 45 s for one poll_flush_buf of 2 bytes and > 600 s per harness, because
+/// `written` then is a symbolic offset into the Vec for slicing and `drain`).
 pub(crate) struct RecWriter {
     out: [u8; OUT],
     n: usize,
     calls: usize,
     pendings: usize,
-    script: [u8; OUT],
+    cuts: u8,
+    pending_at: usize,
     flushed: bool,
     closed: bool,
 }
+/// "never Pending"
+const NEVER: usize = 99;
 impl RecWriter {
-    fn new(script: [u8; OUT]) -> Self {
-        RecWriter { out: [0; OUT], n: 0, calls: 0, pendings: 0, script, flushed: false, closed: false }
+    fn new(cuts: u8, pending_at: usize) -> Self {
+        RecWriter { out: [0; OUT], n: 0, calls: 0, pendings: 0, cuts, pending_at, flushed: false, closed: false }
     }
 }
 impl AsyncWrite for RecWriter {
     fn poll_write(mut self: Pin<&mut Self>, _cx: &mut Context<'_>, buf: &[u8]) -> Poll<io::Result<usize>> {
-        let c = self.calls;
-        self.calls = c + 1;
-        let k = if c < OUT { self.script[c] as usize } else { 0 };
-        if k == 0 {
-            self.pendings += 1;
+        self.calls += 1;
+        if self.n == self.pending_at && self.pendings == 0 {
+            self.pendings = 1;
             return Poll::Pending;
         }
-        let take = if k < buf.len() { k } else { buf.len() };
-        let mut i = 0;
-        while i < take {
+        let mut take = 0;
+        while take < buf.len() {
             let at = self.n;
             if at < OUT {
-                self.out[at] = buf[i];
+                self.out[at] = buf[take];
             }
             self.n = at + 1;
-            i += 1;
+            take += 1;
+            let p = self.n;
+            if (p < 8 && (self.cuts >> p) & 1 == 1) || (p == self.pending_at && self.pendings == 0) {
+                break;
+            }
         }
         Poll::Ready(Ok(take))
     }
@@ -98,6 +110,25 @@ impl AsyncWrite for RecWriter {
         self.closed = true;
         Poll::Ready(Ok(()))
     }
+}
+
+/// Is (cuts, pending_at) the canonical description of a behaviour for a backlog of `len` bytes
+/// followed by `blen` freshly written bytes?  cuts only strictly inside (0, len) or
+/// (len, len+blen) (the end of an offered slice ends a call anyway) and only before the
+/// Pending (what the writer would do after the call under contract returned is unobservable).
+fn canonical(cuts: u8, pending_at: usize, len: usize, blen: usize) -> bool {
+    let total = len + blen;
+    let mut p = 0;
+    let mut ok = cuts & 1 == 0;
+    while p < 8 {
+        if (cuts >> p) & 1 == 1 {
+            if p >= total || p == len || (pending_at != NEVER && p >= pending_at) {
+                ok = false;
+            }
+        }
+        p += 1;
+    }
+    ok
 }
 
 /// the three fields of `CryptWriter<W>`, same names, same pinning
@@ -136,11 +167,11 @@ fn vec_of(len: usize) -> Vec<u8> {
 /// (base symbolic), the `len` pending bytes (symbolic) are the ciphertext of stream positions
 /// base..base+len, the cipher stands at base+len.  The recorder starts empty and records
 /// only what this step puts on the wire.
-fn state_of(len: usize) -> (CwEnv, usize) {
+fn state_of(len: usize, cuts: u8, pending_at: usize) -> (CwEnv, usize) {
     let base: usize = kani::any();
     kani::assume(base <= 100);
     let s = CwEnv {
-        inner: RecWriter::new(kani::any()),
+        inner: RecWriter::new(cuts, pending_at),
         buf: vec_of(len),
         cipher: MockCipher { pos: base + len, calls: 0 },
     };
@@ -171,8 +202,8 @@ fn check_stream(s: &CwEnv, before: &[u8; 4], nb: usize, pos0: usize, accepted: &
     }
 }
 
-fn write_case(len: usize, blen: usize) {
-    let (mut s, pos0) = state_of(len);
+fn write_case(len: usize, blen: usize, cuts: u8, pending_at: usize) {
+    let (mut s, pos0) = state_of(len, cuts, pending_at);
     let (before, nb) = snapshot(&s);
     let data = vec_of(blen);
     let w = noop_waker();
@@ -197,38 +228,69 @@ fn write_case(len: usize, blen: usize) {
     std::mem::forget((s, data));
 }
 
-/// poll_write from ANY state with 0 or 1 pending bytes x write lengths 0..=3
+/// every canonical inner-writer behaviour for (len, blen): Pending at 0..len+blen-1 or never
+fn write_cases(len: usize, blen: usize) {
+    let total = len + blen;
+    let mut pa = 0;
+    while pa <= total {
+        let pending_at = if pa == total { NEVER } else { pa };
+        let mut cuts: u8 = 0;
+        while cuts < 64 {
+            if canonical(cuts, pending_at, len, blen) {
+                write_case(len, blen, cuts, pending_at);
+            }
+            cuts += 2;
+        }
+        pa += 1;
+    }
+}
+
+/// poll_write from ANY state with 0 or 1 pending bytes x write lengths 0..=3 x every inner behaviour
 #[kani::proof]
-#[kani::unwind(10)]
-fn crypt_writer_poll_write_short_backlog() {
+#[kani::unwind(34)]
+fn crypt_writer_poll_write_backlog_0_1() {
     let mut len = 0;
     while len <= 1 {
         let mut blen = 0;
         while blen <= 3 {
-            write_case(len, blen);
+            write_cases(len, blen);
             blen += 1;
         }
         len += 1;
     }
 }
 
-/// poll_write from ANY state with 2 or 3 pending bytes x write lengths 0..=3
+/// poll_write from ANY state with 2 pending bytes
 #[kani::proof]
-#[kani::unwind(10)]
-fn crypt_writer_poll_write_long_backlog() {
-    let mut len = 2;
-    while len <= 3 {
-        let mut blen = 0;
-        while blen <= 3 {
-            write_case(len, blen);
-            blen += 1;
-        }
-        len += 1;
+#[kani::unwind(34)]
+fn crypt_writer_poll_write_backlog_2() {
+    let mut blen = 0;
+    while blen <= 3 {
+        write_cases(2, blen);
+        blen += 1;
     }
 }
 
-fn flush_case(len: usize, close: bool) {
-    let (mut s, pos0) = state_of(len);
+/// poll_write from ANY state with 3 pending bytes, write lengths 0..=2
+#[kani::proof]
+#[kani::unwind(34)]
+fn crypt_writer_poll_write_backlog_3() {
+    let mut blen = 0;
+    while blen <= 2 {
+        write_cases(3, blen);
+        blen += 1;
+    }
+}
+
+/// poll_write from ANY state with 3 pending bytes, write length 3
+#[kani::proof]
+#[kani::unwind(34)]
+fn crypt_writer_poll_write_backlog_3_write_3() {
+    write_cases(3, 3);
+}
+
+fn flush_case(len: usize, close: bool, cuts: u8, pending_at: usize) {
+    let (mut s, pos0) = state_of(len, cuts, pending_at);
     let (before, nb) = snapshot(&s);
     let w = noop_waker();
     let mut cx = Context::from_waker(&w);
@@ -239,7 +301,7 @@ fn flush_case(len: usize, close: bool) {
             assert!(if close { s.inner.closed } else { s.inner.flushed }, "pnet writer: inner writer not flushed/closed");
         }
         Poll::Pending => {
-            assert!(s.inner.pendings > 0);
+            assert!(s.inner.pendings > 0, "pnet writer: Pending although the inner writer never was");
             assert!(!s.inner.flushed && !s.inner.closed, "pnet writer: inner writer flushed/closed before the backlog went out");
         }
         Poll::Ready(Err(_)) => assert!(false, "pnet writer: error although the inner writer made progress"),
@@ -249,35 +311,45 @@ fn flush_case(len: usize, close: bool) {
     std::mem::forget(s);
 }
 
-/// poll_flush / poll_close from ANY state with 0..=3 pending bytes
+/// poll_flush / poll_close from ANY state with 0..=3 pending bytes x every inner behaviour
 #[kani::proof]
-#[kani::unwind(10)]
+#[kani::unwind(34)]
 fn crypt_writer_poll_flush_and_close_drain_the_backlog() {
     let mut len = 0;
     while len <= 3 {
-        flush_case(len, false);
-        flush_case(len, true);
+        let mut pa = 0;
+        while pa <= len {
+            let pending_at = if pa == len { NEVER } else { pa };
+            let mut cuts: u8 = 0;
+            while cuts < 8 {
+                if canonical(cuts, pending_at, len, 0) {
+                    flush_case(len, false, cuts, pending_at);
+                    flush_case(len, true, cuts, pending_at);
+                }
+                cuts += 2;
+            }
+            pa += 1;
+        }
         len += 1;
     }
 }
 
-/// write 2, write 2, flush x3 on a fresh writer, every inner call Pending / partial at will:
-/// whatever was accepted is on the wire or pending, encrypted with positions 0, 1, 2, ...
-#[kani::proof]
-#[kani::unwind(10)]
-fn crypt_writer_write_write_flush_sequence() {
-    let mut s = CwEnv { inner: RecWriter::new(kani::any()), buf: Vec::with_capacity(OUT), cipher: MockCipher { pos: 0, calls: 0 } };
+/// write 2, write 2, flush x3 on a fresh writer; inner writer: every partial-write pattern over
+/// the 4 bytes x one Pending at any position or none.  Whatever was accepted is on the wire or
+/// pending, encrypted with positions 0, 1, 2, ...
+fn sequence_case(cuts: u8, pending_at: usize) {
+    let mut s = CwEnv { inner: RecWriter::new(cuts, pending_at), buf: Vec::with_capacity(OUT), cipher: MockCipher { pos: 0, calls: 0 } };
     let a = vec_of(2);
     let b = vec_of(2);
     let w = noop_waker();
     let mut cx = Context::from_waker(&w);
     // a fresh writer has no backlog: the first write is accepted whole whatever the inner writer does
-    assert!(matches!(Pin::new(&mut s).poll_write(&mut cx, &a), Poll::Ready(Ok(2))));
+    assert!(matches!(Pin::new(&mut s).poll_write(&mut cx, &a), Poll::Ready(Ok(2))), "pnet writer: first write on an empty writer not accepted whole");
     let m = match Pin::new(&mut s).poll_write(&mut cx, &b) {
         Poll::Ready(Ok(m)) => m,
         Poll::Pending => 0,
         Poll::Ready(Err(_)) => {
-            assert!(false);
+            assert!(false, "pnet writer: error although the inner writer made progress");
             0
         }
     };
@@ -288,23 +360,37 @@ fn crypt_writer_write_write_flush_sequence() {
         done = matches!(Pin::new(&mut s).poll_flush(&mut cx), Poll::Ready(Ok(())));
         k += 1;
     }
-    kani::cover!(done && m == 2);
-    kani::cover!(!done);
+    // the inner writer is Pending at most once: two flushes always suffice
+    assert!(done, "pnet writer: flush does not complete although the inner writer accepts everything");
     let plain = [a[0], a[1], b[0], b[1]];
     check_stream(&s, &[0; 4], 0, 0, &plain, 2 + m);
-    if done {
-        assert!(s.buf.is_empty() && s.inner.n == 2 + m);
-        // in particular nothing went out in plaintext
-        assert!(s.inner.out[0] != a[0] && s.inner.out[1] != a[1]);
-    }
+    assert!(s.buf.is_empty() && s.inner.n == 2 + m);
+    // in particular nothing went out in plaintext
+    assert!(s.inner.out[0] != a[0] && s.inner.out[1] != a[1], "pnet writer: plaintext on the wire");
     std::mem::forget((s, a, b));
+}
+
+#[kani::proof]
+#[kani::unwind(34)]
+fn crypt_writer_write_write_flush_sequence() {
+    let mut pa = 0;
+    while pa <= 4 {
+        let pending_at = if pa == 4 { NEVER } else { pa };
+        // partial writes inside the first and / or the second pair of bytes (position 2 ends an
+        // offered slice in every run of this sequence)
+        sequence_case(0, pending_at);
+        sequence_case(1 << 1, pending_at);
+        sequence_case(1 << 3, pending_at);
+        sequence_case((1 << 1) | (1 << 3), pending_at);
+        pa += 1;
+    }
 }
 
 /// Vacuity canary: must FAIL (the backlog would never reach the inner writer).
 #[kani::proof]
-#[kani::unwind(10)]
+#[kani::unwind(34)]
 fn canary_crypt_writer_never_writes() {
-    let (mut s, _) = state_of(2);
+    let (mut s, _) = state_of(2, 0, NEVER);
     let w = noop_waker();
     let mut cx = Context::from_waker(&w);
     let _ = Pin::new(&mut s).poll_flush(&mut cx);
